@@ -92,6 +92,7 @@ pub fn tracegen_only(prop: &str, seed: u64, runs: usize, only: Option<usize>) ->
             "dig" => crate::digwl::dig_loaded_run(prop, run, s),
             "C06" => binding_run(prop, run, s),
             "C11" => mismatch_run(prop, run, s),
+            "chg" => changed_run(prop, run, s),
             "C15" => sched_run(prop, run, s),
             "C07" => width_run(prop, run, s),
             "C08" => expr_run(prop, run, s),
@@ -220,9 +221,10 @@ pub fn policy_for(test: &Test, opt: &Opt, seed: u64, rng: &mut StdRng, expected_
         FaultMode::All(p) => {
             if rng.gen_bool(p) {
                 let at = rng.gen_range(0..=expected_calls.min(12));
-                let f = match rng.gen_range(0..8) {
+                let f = match rng.gen_range(0..9) {
                     0 | 1 | 2 => Fault::Error(rng.gen_range(1..1000)),
                     3 => Fault::Drop,
+                    8 => Fault::DropAll,
                     4 => Fault::Add,
                     5 => Fault::Duplicate,
                     6 => Fault::Swap,
@@ -619,17 +621,52 @@ fn error_run(prop: &str, run: usize, seed: u64) -> Vec<J> {
 // C11: programs against signal lists that may or may not fit (names, directions, duplicates, omissions, extras)
 
 fn mismatch_run(prop: &str, run: usize, seed: u64) -> Vec<J> {
-    let mut g = Gen::new(seed, Knobs { p_device: 0.3, p_c: 0.15, p_x: 0.05, bidir: true, max_stmts: 8, max_virtuals: 2, max_depth: 2, ..Knobs::control_flow() });
+    let mut g = Gen::new(seed, Knobs { p_device: 0.3, p_c: 0.2, p_x: 0.05, p_bits: 0.45, bidir: true, max_stmts: 8, max_virtuals: 2, max_depth: 2, ..Knobs::control_flow() });
     let plan = g.plan();
     let prog = g.program(&plan);
     let mut supplied = plan.supplied.clone();
-    // zero to two edits of the signal list
+    // zero to two edits of the signal list; half of them aim at a signal whose column holds a clock entry or that an
+    // expression reads (those are the signals the binder's checks are about)
+    let mut hot: Vec<String> = vec![];
+    fn clock_cols(stmts: &[Stmt], header: &[String], out: &mut Vec<String>) {
+        for s in stmts {
+            match s {
+                Stmt::Row { entries, .. } | Stmt::Repeat { entries, .. } => {
+                    let mut c = 0;
+                    for e in entries {
+                        if matches!(e, Entry::C) && c < header.len() {
+                            out.push(header[c].clone());
+                        }
+                        c += e.width();
+                    }
+                }
+                Stmt::Loop { body, .. } | Stmt::While { body, .. } => clock_cols(body, header, out),
+                _ => {}
+            }
+        }
+    }
+    clock_cols(&prog, &plan.header, &mut hot);
+    // quite often: a signal whose column holds a clock entry stops being an input
+    if !hot.is_empty() && g.rng.gen_bool(0.35) {
+        let name = hot[g.rng.gen_range(0..hot.len())].clone();
+        if let Some(k) = supplied.iter().position(|s| s.name == name) {
+            supplied[k].dir = Dir::Out;
+            supplied[k].def = Val::X;
+        }
+    }
+    hot.extend(reads(&prog));
     let n_edits = g.rng.gen_range(0..3);
     for _ in 0..n_edits {
         if supplied.is_empty() {
             break;
         }
-        let i = g.rng.gen_range(0..supplied.len());
+        let mut i = g.rng.gen_range(0..supplied.len());
+        if !hot.is_empty() && g.rng.gen_bool(0.5) {
+            let name = &hot[g.rng.gen_range(0..hot.len())];
+            if let Some(k) = supplied.iter().position(|s| &s.name == name) {
+                i = k;
+            }
+        }
         match g.rng.gen_range(0..7) {
             0 => {
                 supplied.remove(i);
@@ -836,4 +873,36 @@ fn sched_run(prop: &str, run: usize, seed: u64) -> Vec<J> {
     verif::set_seed_override(None);
     out.push(json!({"ev":"end","run":run}));
     out
+}
+
+// ---------------------------------------------------------------------------------------------
+// C06 (`changed`): few distinct values on a few inputs, a driver that fails now and then, iteration continued
+
+fn changed_run(prop: &str, run: usize, seed: u64) -> Vec<J> {
+    let mut rng = StdRng::seed_from_u64(seed);
+    let supplied = vec![Sig::input("A", 1, Val::N(0)), Sig::input("B", 2, Val::N(1)), Sig::bidir("D", 1, Val::Z), Sig::output("Q", 2), Sig::output("r", 1)];
+    let header: Vec<String> = ["A", "B", "D", "Q", "V"].iter().map(|s| s.to_string()).collect();
+    // V = r + 1: a Z on r makes the row an error item after a successful call
+    let mut prog = vec![Stmt::Declare { name: "V".into(), e: Expr::bin("+", Expr::id("r"), Expr::Num(1)) }];
+    let mut id = 0;
+    let n = rng.gen_range(4..12);
+    for _ in 0..n {
+        id += 1;
+        let a = match rng.gen_range(0..8) {
+            0 => Entry::Z,
+            1 => Entry::C,
+            _ => Entry::Num(rng.gen_range(0..2)),
+        };
+        let b = Entry::Num(rng.gen_range(0..3));
+        let d = if rng.gen_bool(0.3) { Entry::Z } else { Entry::Num(rng.gen_range(0..2)) };
+        prog.push(Stmt::Row { id, entries: vec![a, b, d, Entry::X, Entry::X] });
+    }
+    let test = Test { header, supplied, prog };
+    let layout = choose_layout(Lay::Mixed, seed, &mut rng);
+    let printed = print_test(&test.header, &test.prog, &layout);
+    let opt = Opt { faults: FaultMode::ErrorsOnly(0.7), mode: ValMode::InWidth, p_zx: 0.2, ..Opt::default() };
+    let mut spec = policy_for(&test, &opt, seed, &mut rng, 8);
+    spec.numeric.clear(); // r may be Z: the virtual signal then fails after the call
+    let cfg = RunCfg { run, prop: prop.to_string(), own_write: rng.gen_bool(0.5), max_rows: 60, rng_seed: seed, after_none: 0, cfg_note: json!({"policy": format!("{:?}", spec)}) };
+    trace_run(&Prepared { test, printed, layout }, &cfg, make_policy(spec))
 }
